@@ -258,6 +258,21 @@ fn subjects(ctx: &Ctx) -> Vec<Subject> {
         v.push(Subject { name: format!("sinkfrag{}", i), file: b.bytes.clone(), init: None });
         v.push(Subject { name: format!("segment{}", i), file: b.segment.clone(), init: Some(b.bytes[..b.init_len].to_vec()) });
     }
+    // every box with a 64-bit size header (the reader's largesize path under faults / short transfers)
+    for (i, base) in [adv::kitchen_sink(1), adv::kitchen_sink_frag(0)].into_iter().enumerate() {
+        let mut m = base;
+        for t in m.tracks.iter_mut() {
+            t.trex_dur = 100;
+        }
+        let b0 = build(&m);
+        let large: Vec<crate::refmp4::movie::Xform> = crate::props::c12::sites(&b0.tree, &m).iter().filter_map(|s| if let crate::props::c12::Site::Large { path } = s { Some(crate::refmp4::movie::Xform::Large { path: path.clone() }) } else { None }).collect();
+        m.xforms = large;
+        let b = build(&m);
+        v.push(Subject { name: format!("all-64-bit-headers{}", i), file: b.bytes.clone(), init: None });
+        if !m.frags.is_empty() {
+            v.push(Subject { name: format!("all-64-bit-headers-segment{}", i), file: b.segment.clone(), init: Some(b.bytes[..b.init_len].to_vec()) });
+        }
+    }
     if !ctx.quick() {
         v.push(Subject { name: "big_buck_bunny_metadata.m4v".into(), file: adv::canned("big_buck_bunny_metadata.m4v"), init: None });
     }
